@@ -21,6 +21,7 @@ from vf import fits as FT
 from vf.gen import rng_for, synth_daily
 
 ID = "C13"
+TECHNIQUE = 'runtime monitoring: hooks on the real candidate generation/selection (exact-cover and data-availability invariants, argmin of the logged criterion) + routing oracle over every date of two years for every split string under interleaved models of different maps'
 LEVEL = "exploration"
 CASE_TIMEOUT = 2400
 RULE = ("candidates: all 16 allow-flag combinations x gaussian reduction on/off x season/weekday maps (default, shifted seasons, one-season map, "
